@@ -652,13 +652,27 @@ func c13GenReq(t *rapid.T) c13Case {
 		// half of the time a well-formed comparison over a leaf of that list (set in some rows, unset in others)
 		if listNode != nil && rapid.Bool().Draw(t, "well-formed") {
 			var leaves []string
-			for _, d := range listNode.DataChildren() {
-				if d.Kind == "leaf" {
-					leaves = append(leaves, d.Name)
+			// operands: leaves of the row, and paths into its containers and lists (ending on a leaf or on the container itself)
+			var operands func(n *dm.Node, prefix string, depth int)
+			operands = func(n *dm.Node, prefix string, depth int) {
+				for _, d := range n.DataChildren() {
+					switch {
+					case d.Kind == "leaf":
+						leaves = append(leaves, prefix+d.Name)
+					case (d.Kind == "container" || d.Kind == "list") && depth < 3:
+						leaves = append(leaves, prefix+d.Name)
+						operands(d, prefix+d.Name+"/", depth+1)
+					}
 				}
 			}
+			operands(listNode, "", 0)
 			if len(leaves) > 0 {
-				c.Text = rapid.SampledFrom(leaves).Draw(t, "operand") + rapid.SampledFrom([]string{"=", "!=", "<", "<=", ">", ">=", " = ", " < "}).Draw(t, "op") + rapid.SampledFrom([]string{"1", "0", "-1", "1.5", "'x'", "'true'", "true", "99999999999999999999", "''"}).Draw(t, "literal")
+				opnd, op := rapid.SampledFrom(leaves).Draw(t, "operand"), rapid.SampledFrom([]string{"=", "!=", "<", "<=", ">", ">=", " = ", " < ", "", "/"}).Draw(t, "op")
+				lit := rapid.SampledFrom([]string{"1", "0", "-1", "1.5", "'x'", "'true'", "true", "99999999999999999999", "''"}).Draw(t, "literal")
+				if op == "" || op == "/" {
+					lit = "" // an existence test
+				}
+				c.Text = opnd + op + lit
 				c.Mutation = "xpath-comparison"
 			}
 		}
